@@ -808,13 +808,13 @@ class SamplingMethod(DirectMethod):
 
         subst_from = []
         subst_to = []
+        # k==-1 is an alias for the final node N
+        k_node = self.N if k==-1 else k
         for offset in offsets.keys():
-            if k==-1 and offset>0:
-                raise IndexError()
-            if k+offset<0:
+            if k_node+offset<0 or k_node+offset>self.N:
                 raise IndexError()
             subst_from.append(vvcat(symbols[offset]))
-            subst_to.append(self._eval_at_control(stage, vvcat(offsets[offset]), k+offset))
+            subst_to.append(self._eval_at_control(stage, vvcat(offsets[offset]), k_node+offset))
             #print(expr, subst_from, subst_to)
 
 
